@@ -994,12 +994,12 @@ void campaign(Ctx& ctx)
 	{
 		enumerate(ctx, thorough ? 7 : 5);
 		if (ctx.failed) return;
-		ctx.rc_campaign("tcp streams with faults and reuse", gen_c05(thorough ? 300000 : 40000), thorough ? 30000 : 400, 60, 1);
+		ctx.rc_campaign("tcp streams with faults and reuse", gen_c05(thorough ? 150000 : 40000), thorough ? 8000 : 400, 60, 1);
 	}
 	else if (ctx.opt.prop == "C06")
 	{
-		ctx.rc_campaign("tcp progress (small)", gen_c06(60000), thorough ? 8000 : 150, 40, 1);
-		ctx.rc_campaign("tcp progress (large)", gen_c06(thorough ? 2000000 : 300000), thorough ? 1500 : 40, 100, 2);
+		ctx.rc_campaign("tcp progress (small)", gen_c06(60000), thorough ? 4000 : 150, 40, 1);
+		ctx.rc_campaign("tcp progress (large)", gen_c06(thorough ? 2000000 : 300000), thorough ? 600 : 40, 100, 2);
 	}
 	else if (ctx.opt.prop == "C19")
 	{
@@ -1007,7 +1007,7 @@ void campaign(Ctx& ctx)
 	}
 	else
 	{
-		ctx.rc_campaign("tcp mtu", gen_c20(), thorough ? 25000 : 350, 60, 1);
+		ctx.rc_campaign("tcp mtu", gen_c20(), thorough ? 10000 : 350, 60, 1);
 	}
 }
 
